@@ -350,6 +350,31 @@ def oracleHostile (c : CaseIn) (rkv : KV) : Option String :=
     | some a => if a > 4194304 + 16 * L then some ("C04:allocated=" ++ toString a ++ ":limit=" ++ toString L) else none
   else none
 
+/-- C11 oracle on the implementation's run: the SSLRequest is answered with exactly one byte —
+    'S' with certificates, 'N' without — and after an 'S' every raw byte the server put on the
+    wire is a TLS record with no protocol plaintext in it (`tap`, computed by the harness's tap) -/
+def oracleTls (c : CaseIn) (chunks : List Bytes) (rkv : KV) : Option String :=
+  -- "mallory" in hex: the marker the generator puts into stuffed plaintext (user name, query text);
+  -- callback events carry query texts hex-encoded, i.e. the marker appears hex-encoded twice
+  let marker := "6d616c6c6f7279"
+  let markerHexHex := "3664363136633663366637323739"
+  let want : UInt8 := if c.cfg.tls ≥ 2 then ch 'S' else ch 'N'
+  let sslFirst := c.inp.take 8 = be32 8 ++ be32 versionSSL
+  if !sslFirst then none
+  else match chunks with
+    | [b] :: _ =>
+      if b ≠ want then some ("C11:SSLRequest-answered-with-" ++ hexOf [b])
+      else if c.cfg.tls ≥ 2 ∧ get rkv "tap" ≠ "ok" then some ("C11:wire-" ++ get rkv "tap")
+      else if c.cfg.tls ≥ 2 ∧ ((get c.kv "in").splitOn marker).length > 1 ∧ ((get c.kv "tin").splitOn marker).length = 1
+          ∧ (((get rkv "out").splitOn marker).length > 1 ∨ ((get rkv "ev").splitOn marker).length > 1
+             ∨ ((get rkv "ev").splitOn markerHexHex).length > 1) then
+        some "C11:plaintext-sent-ahead-of-the-handshake-was-interpreted"
+      else if c.cfg.tls ≥ 2 ∧ c.tin.take 8 = be32 16 ++ be32 versionCancel ∧ c.tin.length ≥ 16
+          ∧ (chunks.length ≠ 1 ∨ get rkv "ev" ≠ "" ∨ get rkv "end" ≠ "c") then
+        some "C12:CancelRequest-inside-TLS-got-a-reply-or-a-callback-or-stayed-open"
+      else none
+    | _ => some "C11:SSLRequest-not-answered-with-a-single-byte"
+
 /-- C09 oracle: decode every DataRow of the implementation's transcript as a client would
     (type OIDs and format codes from the generator's description of the request, checked against
     the RowDescription) and compare with the values the handler was told to write -/
@@ -673,6 +698,7 @@ def oracle (c : CaseIn) (chunks : List Bytes) (rkv : KV) : Option String :=
   else if c.camp = "simple" then oracleSimple c chunks rkv
   else if c.camp = "values" then oracleValues c chunks
   else if c.camp = "hostile" ∨ c.camp = "alloc" then oracleHostile c rkv
+  else if c.camp = "tls" then oracleTls c chunks rkv
   else if c.camp = "ext" then oracleExt c chunks rkv
   else if c.camp = "auth" then oracleAuth c chunks rkv
   else if c.camp = "multi" then oracleMulti c rkv
